@@ -49,6 +49,28 @@ RtScenarios ==   { Setup \o << ApiRow(r), [a |-> "saveload", fmt |-> f], SelAll 
                               [a |-> "saveload", fmt |-> f], SelAll >> : f \in Fmts }
             \cup { Setup \o << [a |-> "saveload", fmt |-> f], SelAll >> : f \in Fmts }                    \* empty table
 
+\* ---------- a second table with the parameterised types: lengths above 255, precision / scale, single-precision floats ----------
+Classes2 == [ char3   |-> <<"abc", "a", "uni">>,         char300 |-> <<"plain", "long280">>,
+              vc1000  |-> <<"long600", "plain">>,        vcu     |-> <<"plain", "long600">>,
+              numeric |-> <<"1.50", "-0.01", "12345678.91">>,  decimal |-> <<"7", "-99999">>,
+              real    |-> <<"1.5", "0.1">>,              float   |-> <<"2.5", "-0.3">> ]
+ColOrder2 == << "char3", "char300", "vc1000", "vcu", "numeric", "decimal", "real", "float" >>
+Kind2 == << "chr", "chr", "str", "str", "numeric", "numeric", "real", "float" >>      \* how the harness builds the value
+ColNamesTW == << "C3", "C300", "V1000", "VU", "N", "DE", "R", "F" >>
+ColTypes2 == << "CHAR(3)", "CHAR(300)", "VARCHAR(1000)", "VARCHAR", "NUMERIC(10, 2)", "DECIMAL(5, 0)", "REAL", "FLOAT" >>
+Cls2(i, j) == [c |-> Kind2[i], v |-> Classes2[ColOrder2[i]][((j - 1) % Len(Classes2[ColOrder2[i]])) + 1]]
+OneRow2(k, j) == [i \in 1..8 |-> IF i = k THEN Cls2(k, j) ELSE NullV]
+FullRow2(j) == [i \in 1..8 |-> Cls2(i, j)]
+Setup2 == << CreateTable("TW", [i \in 1..8 |-> ColDef(ColNamesTW[i], ColTypes2[i])]),
+             [a |-> "ci", n |-> "IW", t |-> "TW", cols |-> << [c |-> "C300", dir |-> "asc", plen |-> 0] >>, uq |-> FALSE] >>
+ApiRow2(r) == [a |-> "apirow", t |-> "TW", vals |-> r]
+SelAll2 == QueryA(BaseSel(TableRef("TW")))
+RowChoices2 == UNION { { OneRow2(k, j) : j \in 1..Len(Classes2[ColOrder2[k]]) } : k \in 1..8 } \cup { FullRow2(j) : j \in 1..3 }
+RtScenarios2 ==   { Setup2 \o << ApiRow2(r), [a |-> "saveload", fmt |-> f], SelAll2 >> : r \in RowChoices2, f \in Fmts }
+             \cup { Setup2 \o [j \in 1..3 |-> ApiRow2(FullRow2(j))] \o << [a |-> "saveload", fmt |-> f], SelAll2,
+                                [a |-> "saveload", fmt |-> f], SelAll2 >> : f \in Fmts }
+             \cup { Setup2 \o << [a |-> "saveload", fmt |-> f], SelAll2 >> : f \in Fmts }
+
 \* ---------- fault model (C20) ----------
 \* offsets are absolute from the start (0 .. MaxAt) or from the end (negative); offsets outside the file are skipped
 Ats == (0..MaxAt) \cup { -k : k \in 1..16 }
@@ -59,7 +81,7 @@ Faults ==   { [kind |-> "trunc", at |-> k, bit |-> 0, v |-> "", seed |-> 0] : k 
 FaultBase == Setup \o << ApiRow(FullRow(1)), ApiRow(FullRow(2)), ApiRow(FullRow(3)) >>
 FaultScenarios == { FaultBase \o << [a |-> "corruptload", fmt |-> f, fault |-> x] >> : f \in Fmts, x \in Faults }
 
-Scenarios == IF Mode = "rt" THEN RtScenarios ELSE FaultScenarios
+Scenarios == IF Mode = "rt" THEN RtScenarios \cup RtScenarios2 ELSE FaultScenarios
 ASSUME \A s \in Scenarios : PrintT(<<"REPLAY", ToJson(s)>>)
 
 \* spec-level sanity: the reload and the damaged load leave the specification state alone
